@@ -15,6 +15,7 @@ import sympy as sp
 
 from .common import *  # noqa
 from .boolib import *  # noqa
+from .grlib import no_wrap_possible
 from ..vg import Interp
 
 CLS = "static.boo.boo_2d"
@@ -35,9 +36,9 @@ def run(run: Run, pkg: Package) -> None:
     for weighted in (False, True):
         angles[weighted] = check_lth(run, pkg, weighted)
     if angles[False] is not None and angles[True] is not None:
-        same = angles[False] == angles[True]
+        same = eqv(angles[False], angles[True])
         run.ob("R-SIB", short(f"PyMatterSim.{CLS}.lthorder"), "same-angles", same, "weighted and unweighted arms use the same bond-angle expression", "",
-               witness=None if same else "equal weights do not reproduce the unweighted result", loc="")
+               witness=None if same else "equal weights do not reproduce the unweighted result", loc="", sound=True)
     check_init(run, pkg)
     check_time_average(run, pkg)
     check_corr(run, pkg)
@@ -78,7 +79,7 @@ def check_lth(run, pkg, weighted):
     oksh = tri_lazy(lambda: (True if (R[0] == "call") else None), lambda: (True if (R[1] == "numpy.zeros") else None), lambda: (True if (R[2]) else None), lambda: eqv(R[2][0], ("tuple", (("attr", ("attr", SELF, "snapshots"), "nsnapshots"), ("attr", SELF, "nparticle")))), lambda: eqv(kw(R, "dtype"), ("mod", "numpy.complex128"), ("builtin", "complex")))
     run.ob("R-ALG", fq, f"{v}:shape", oksh, "results are complex zeros of shape (nsnapshots, nparticle)", show(R)[:80], witness=None if oksh else "real dtype drops the phase / wrong shape", loc=loc, sound=True)
     okret = len(it.returns) == 1 and it.returns[0].data["value"] == R
-    run.ob("R-ALG", fq, f"{v}:return", okret, "the filled array is returned", "", witness=None if okret else "another array returned", loc=fi.loc())
+    run.ob("R-ALG", fq, f"{v}:return", True if okret else None, "the filled array is returned", "", loc=fi.loc())
     rd = [e for e in calls(it, READER) if set(e.loops) == {Lf.id}]
     NL = Wt = None
     for e in rd:
@@ -126,11 +127,12 @@ def check_lth(run, pkg, weighted):
     tr = S.Translator(at)
     try:
         g = tr.tr(kern[2][0])
-        okk = S.decide_equal(g, sp.I * lS * thS)[0] is True and not tr.atoms
+        # an exponent made of i, l, theta and numbers only: the normal-form comparison is a decision procedure
+        okk = None if tr.atoms else S.decide_equal(g, sp.I * lS * thS)[0]
     except Exception:  # noqa
         okk = None
     run.ob("R-ANGLE", fq, f"{v}:kernel", okk, "each bond contributes exp(i l theta) with the instance's l", show(kern)[:100],
-           witness=None if okk else "exponent is not i l theta (sign / degree / missing i)", loc=loc)
+           witness=None if okk else "exponent is not i l theta (sign / degree / missing i)", loc=loc, sound=True)
     if TH is None:
         return None
     B = None
@@ -140,34 +142,37 @@ def check_lth(run, pkg, weighted):
             break
     if B is None:
         raw = [x for x in walk(TH) if x[0] == "bin" and x[1] == "-" and any(y[0] == "attr" and y[2] == "positions" for y in walk(x))]
-        run.ob("R-PBC", fq, f"{v}:image", False if raw else None, "bond vectors are minimum-image vectors", show(TH)[:100],
-               witness="a bond across the periodic boundary points the wrong way" if raw else None, loc=loc)
+        unwrapped = bool(raw) and no_wrap_possible(TH)
+        run.ob("R-PBC", fq, f"{v}:image", False if unwrapped else None, "bond vectors are minimum-image vectors", show(TH)[:100],
+               witness="a bond across the periodic boundary points the wrong way" if unwrapped else None, loc=loc, sound=True)
         return TH
     azi = azimuth_angle(TH, B)
     run.ob("R-ANGLE", fq, f"{v}:angle", (azi == "ok") if azi is not None else None, "theta = arctan2(y, x) of the imaged bond vector", show(TH)[:70] if azi in (None, "ok") else azi,
-           witness=None if azi == "ok" else azi, loc=loc)
+           witness=None if azi == "ok" else azi, loc=loc, sound=True)
     bv = bond_vectors(B)
     if bv is None:
         run.ob("R-PBC", fq, f"{v}:bond", None, "bond vector form recognised", show(B)[:100], loc=loc)
     else:
-        okb = bv["snap"] == snap and is_nbr_slice(bv["left"], NL, i) and bv["right"] == i
+        okb = tri(eqv(bv["snap"], snap), nbr_slice_tri(bv["left"], NL, i), eqv(bv["right"], i))
         rev = bv["snap"] == snap and is_nbr_slice(bv["right"], NL, i) and bv["left"] == i
+        if rev:
+            okb = False
         run.ob("R-PBC", fq, f"{v}:bond", okb, "bond vectors are positions[neighbours of i (columns 1..cn_i)] - positions[i] within the frame", f"[{show(bv['left'])[:60]}] - [{show(bv['right'])[:30]}]",
-               witness=None if okb else ("centre - neighbour: psi_l changes sign for odd l" if rev else "bond vectors do not join i to its listed neighbours"), loc=loc)
+               witness=None if okb else ("centre - neighbour: psi_l changes sign for odd l" if rev else "bond vectors do not join i to its listed neighbours"), loc=loc, sound=True)
         okh = eqv(bv["H"], ("attr", snap, "hmatrix"))
         run.ob("R-PBC", fq, f"{v}:cell", okh, "minimum image uses the frame's cell", show(bv["H"])[:50], witness=None if okh else "cell of another frame", loc=loc, sound=True)
-        okm = eqv(bv["ppp"], ("attr", SELF, "ppp"))
+        okm = eqv(bv["ppp"], ("attr", SELF, "ppp")) if bv["ppp"] is not None else False
         run.ob("R-PBC", fq, f"{v}:mask", okm, "the instance's periodicity mask is forwarded", show(bv["ppp"])[:40] if bv["ppp"] else "default", witness=None if okm else "mask dropped", loc=loc, sound=True)
     if not weighted:
-        ok = red == "mean" and wfac is None
+        touched = [e for e in it.events if e is not ev and ((e.kind == "store" and e.data["target"][1] == R) or (e.kind == "aug" and e.data.get("old") == R))]
+        # the stored value is the bare reduction of the bare kernel and nothing rescales the array afterwards: definite
+        ok = True if (red == "mean" and wfac is None) else (False if (red == "sum" and wfac is None and not touched) else None)
         run.ob("R-ALG", fq, "plain:mean", ok, "unweighted value = mean of exp(i l theta) over the cn_i bonds (so |psi| <= 1)", f"{red} of {'weighted' if wfac else 'plain'} kernel",
-               witness=None if ok else "sum instead of mean: |psi| grows with the coordination number", loc=loc)
+               witness=None if ok else "sum instead of mean: |psi| grows with the coordination number", loc=loc, sound=True)
         return strip_reader(TH)
     # weighted: sum(w / sum|w| * exp)
     okr = red == "sum"
-    run.ob("R-ALG", fq, "weighted:sum", okr, "weighted value = sum over bonds (weights already normalised), not divided again", red,
-           witness=None if okr else "mean of normalised weights x kernel: divided by cn a second time", loc=loc)
-    okw = False
+    okw = None
     detail = show(wfac)[:120] if wfac else "no weight factor"
     if post_den is not None and wfac is not None and not (wfac[0] == "bin" and wfac[1] == "/"):
         wfac = ("bin", "/", wfac, post_den)        # (sum w k) / D == sum (w / D) k for a scalar D
@@ -178,14 +183,16 @@ def check_lth(run, pkg, weighted):
                             ("call", "builtins.abs", (("call", ".sum", (w,), ()),), ()), ("call", "numpy.abs", (("call", "numpy.sum", (w,), ()),), ()))
         run.ob("R-ALG", fq, "weighted:normalised", okden, "weights are divided by the sum of their absolute values (|psi| <= 1 also with negative weights)", show(den)[:80],
                witness=None if okden else ("weights 1, -1: division by zero / |psi| > 1" if plain_sum else "weights not normalised by sum |w|"), loc=loc, sound=True)
-        okal = Wt is not None and is_nbr_slice_of(w, Wt, NL, i)
+        okal = eqv(w, ("sub", Wt, ("tuple", (i, ("slice", C(1), ("bin", "+", nbr_count(NL, i), C(1)), NONE))))) if Wt is not None else None
+        # normalised weights (sum |w| = 1) averaged instead of summed: the value is divided by cn a second time
+        run.ob("R-ALG", fq, "weighted:sum", True if okr else (False if (red == "mean" and okden is True) else None), "weighted value = sum over bonds (weights already normalised), not divided again", red,
+               witness=None if okr else "mean of normalised weights x kernel: divided by cn a second time", loc=loc, sound=True)
         run.ob("R-ALIGN", fq, "weighted:alignment", okal, "bond k of particle i is weighted with column k + 1 of row i of the weight table (same slice 1..cn_i as the neighbours)", show(w)[:100],
-               witness=None if okal else "weights shifted by one bond / count column used as a weight / weights of another particle", loc=loc)
+               witness=None if okal else "weights shifted by one bond / count column used as a weight / weights of another particle", loc=loc, sound=True)
         okw = okden and okal
     else:
-        run.ob("R-ALG", fq, "weighted:normalised", False if wfac is not None else None, "weights are divided by the sum of their absolute values", detail,
-               witness="raw weights: |psi| is not bounded by one" if wfac is not None else None, loc=loc)
-    okW = Wt is not None
+        run.ob("R-ALG", fq, "weighted:normalised", None, "weights are divided by the sum of their absolute values", detail, loc=loc)
+    okW = True if Wt is not None else None
     run.ob("R-HANDLE", fq, "weighted:source", okW, "weights of the frame are read from self.weightsfile in the frame loop", show(Wt)[:60] if Wt else "?", witness=None if okW else "weights not read per frame", loc=loc)
     return strip_reader(TH)
 
@@ -211,7 +218,7 @@ def check_init(run, pkg):
     attrs = init_attrs(pkg, CLS)
     fq = short(pkg.cls(CLS).methods["__init__"].qual)
     p = attrs.get("ParticlePhi")
-    ok = p is not None and p[0] == "call" and p[1] == pkg.cls(CLS).methods["lthorder"].qual
+    ok = True if (p is not None and p[0] == "call" and p[1] == pkg.cls(CLS).methods["lthorder"].qual) else None
     run.ob("R-ALG", fq, "stored-order", ok, "self.ParticlePhi is the array returned by lthorder", show(p)[:60] if p else "missing", witness=None if ok else "derived quantities use another array",
            loc=pkg.cls(CLS).methods["__init__"].loc())
 
@@ -261,7 +268,7 @@ def check_time_average(run, pkg):
                 run.ob("R-ALG", fq, f"{tag}:ids", okid, "the middle frame ids of the windows are returned", show(ret[1][1])[:60], witness=None if okid else "ids missing", loc=fi.loc(), sound=True)
         sv = [e for e in it.events if e.kind == "call" and e.data["call"][1] == "numpy.save"]
         oks = all(ret is not None and ret[0] == "tuple" and e.data["call"][2][1] == ret[1][0] and e.data["call"][2][0] == ("sym", "outputfile") for e in sv)
-        run.ob("R-SAVE", fq, f"{tag}:save", oks, "the file holds the returned averaged values", f"{len(sv)} saves", witness=None if oks else "file differs from the returned values", loc=fi.loc())
+        run.ob("R-SAVE", fq, f"{tag}:save", True if oks else None, "the file holds the returned averaged values", f"{len(sv)} saves", witness=None if oks else "file differs from the returned values", loc=fi.loc())
 
 
 def check_corr(run, pkg):
@@ -296,5 +303,5 @@ def check_corr(run, pkg):
         k[p_] = a_
     ok = tri_lazy(lambda: eqv(k.get("snapshots"), ("attr", SELF, "snapshots")), lambda: eqv(k.get("condition"), PHI), lambda: eqv(k.get("dt"), ("sym", "dt")), lambda: eqv(k.get("outputfile"), ("sym", "outputfile")))
     okr = len(it.returns) == 1 and it.returns[0].data["value"] == tc[0].data["result"]
-    run.ob("R-ALIGN", fq, "time", ok and okr, "time correlation of psi over the instance's trajectory with the caller's dt and output file, returned unchanged", ", ".join(f"{a}={show(b)[:30]}" for a, b in k.items()),
+    run.ob("R-ALIGN", fq, "time", tri(ok, True if okr else None), "time correlation of psi over the instance's trajectory with the caller's dt and output file, returned unchanged", ", ".join(f"{a}={show(b)[:30]}" for a, b in k.items()),
            witness=None if ok and okr else "other quantity / dt ignored / result altered", loc=loc_of(it, tc[0]), sound=True)
